@@ -281,10 +281,8 @@ fn write_back(path: &Path, content: &str) -> Result<()> {
 }
 
 fn is_hidden(entry: &DirEntry) -> bool {
-    entry
-        .file_name()
-        .to_str()
-        .is_some_and(|s| s.starts_with('.'))
+    // Bytes, not `to_str`: a name that is not valid UTF-8 is hidden by the same leading dot.
+    entry.file_name().as_encoded_bytes().starts_with(b".")
 }
 
 fn num_files(num: usize) -> String {
